@@ -1,5 +1,8 @@
 //! format functionalities of Ledger format files.
 
+#[cfg(okane_verif)]
+#[allow(unused_imports)]
+use crate::verif::chrono;
 use crate::{
     parse::{parse_ledger, ParseError, ParseOptions},
     syntax::{self, display::DisplayContext},
